@@ -128,6 +128,15 @@ pub fn corpus(seed: u64, n: usize) -> Vec<Case> {
     let st_def = (any::<bool>(), proptest::collection::vec(any::<u16>(), 1..3), any::<u8>());
     let st_dup = (plan(quiet_opts()), any::<u16>(), any::<bool>(), any::<bool>(), any::<bool>());
     let mut out = Vec::with_capacity(n);
+    // large uploads of equal length and different content, validated one after the other (buffers get reused)
+    for (i, fill) in [0x11u8, 0x22, 0x33, 0x44].iter().enumerate() {
+        let mut p = simple_plan(if i % 2 == 0 { crate::model::verify::Carrier::Header } else { crate::model::verify::Carrier::Query });
+        p.logical.method = "PUT".into();
+        p.logical.body = B(vec![*fill; 70_000 + (i / 2) * 4096]);
+        if let Ok(b) = p.build() {
+            out.push(b.case);
+        }
+    }
     while out.len() < n {
         if out.len() % 3 != 2 {
             let p = st_valid.new_tree(&mut runner).unwrap().current();
@@ -288,6 +297,15 @@ pub fn extra(ctx: &Ctx) {
         }
         if !a.verdict().is_specified() {
             cc.unspecified = true;
+        } else {
+            // (iv) the single-threaded outcome is the one the reference model specifies
+            let o = exec::run(case);
+            if let Err(f) = check_against_model(&a, &o) {
+                if !f.sig.contains("literal-plus") {
+                    ctx.violation("corpus", case, &Failure::new(&format!("outcome-differs-from-model:{}", f.sig), f.msg));
+                    return;
+                }
+            }
         }
         ctx.record("corpus", cc);
     }
